@@ -17,7 +17,7 @@ ASSUMPTIONS = ["numpy float64 reference blend"]
 BATCH = {"quick": 40, "thorough": 200}
 FLOORS = {
     "quick": {"kernel_points": 6000, "grid_values": 50000, "grids": 800},
-    "thorough": {"kernel_points": 400000, "grid_values": 1000000, "grids": 10000},
+    "thorough": {"kernel_points": 100000, "grid_values": 1000000, "grids": 10000},
 }
 
 
